@@ -67,6 +67,7 @@ def run(ctx, chk):
     check_hosts(ctx, chk)
     check_firewall(ctx, chk)
     check_sensitive(ctx, chk)
+    check_construct(ctx, chk)
     check_core_topology(ctx, chk)
     chk.assume("NOT decided (declined): positivity of the derived subnet sizes, symmetry / "
                "self-connection of the tree-shaped user topology and 'only the DMZ is public' for "
@@ -803,6 +804,13 @@ def check_firewall(ctx, chk):
         if f_implies(F, userzone):
             chk.ob("C15.firewall", "user<->user rule allows every declared service",
                    is_all_services(val), val[:200], ev.loc)
+        if is_all_services(val):
+            # ... and only user<->user pairs get the unrestricted rule (a rule that crosses zones
+            # is limited by `restrictiveness`)
+            chk.ob("C15.firewall", "the unrestricted rule is stored exactly for connected pairs of "
+                   "user subnets (both indices above the sensitive subnet)",
+                   bool(f_equiv(F, f_and([connected, userzone]))),
+                   f"stored under {f_show(F)[:300]}", ev.loc)
     # every connected pair gets a rule: disjunction of the store conditions == connected
     cover = f_or(conds) if conds else ("false",)
     # draws are opaque atoms; project: for every valuation of the structural atoms some store fires
@@ -905,6 +913,53 @@ def check_sensitive(ctx, chk):
            fi.module.path)
     chk.ob("C15.sensitive", "no other sensitive host is defined", len(got) == 3, str(len(got)),
            fi.module.path, nontrivial=False)
+
+
+def check_construct(ctx, chk):
+    """the scenario handed out is made of the generator's own results: every section of the
+    scenario dict is the attribute generated for it, and generate() passes the requested sensitive
+    values in the order the helper takes them"""
+    try:
+        fi, ip, s, cn = method_run(ctx, "_construct_scenario")
+    except AnalysisError as e:
+        chk.undecided("C15.construct", "_construct_scenario found", str(e)[:120])
+        return
+    news = [ev for ev in s.events if ev.kind == "new" and ev.data["cls"] == "Scenario"]
+    want = {"subnets": "subnets", "address_space_bounds": "address_space_bounds",
+            "topology": "topology", "services": "services", "processes": "processes", "os": "os",
+            "sensitive_hosts": "sensitive_hosts", "exploits": "exploits",
+            "privilege_escalation": "privescs", "service_scan_cost": "service_scan_cost",
+            "os_scan_cost": "os_scan_cost", "subnet_scan_cost": "subnet_scan_cost",
+            "process_scan_cost": "process_scan_cost", "firewall": "firewall", "host": "hosts",
+            "step_limit": "step_limit"}
+    d = news[0].data["args"][0] if len(news) == 1 and news[0].data["args"] else None
+    if d is None or d[0] != "dictobj" or ip.heap[d[1]]["dyn"]:
+        chk.undecided("C15.construct", "the scenario dict pairs every section with the attribute "
+                      "generated for it", "the dict handed to Scenario(...) is not a literal / "
+                      "item-assigned dict the analysis can enumerate", fi.module.path)
+    else:
+        items = {k: cn.show(v) for k, v in ip.heap[d[1]]["items"].items()}
+        bad = {k: items.get(k) for k, a in want.items() if items.get(k) != f"G.{a}"}
+        chk.ob("C15.construct", "the scenario dict pairs every section with the attribute generated "
+               "for it (16 sections)", not bad and set(items) <= set(want),
+               f"wrong or missing: {bad}; extra: {sorted(set(items) - set(want))}", fi.module.path)
+    # generate -> _generate_sensitive_hosts(r_sensitive, r_user, random_goal)
+    fi, ip, s, cn = method_run(ctx, "generate", no_inline=tuple(
+        n for n in ctx.repo.cls(GEN_MOD, "ScenarioGenerator").methods if n != "generate"))
+    calls = [ev for ev in s.events if ev.kind == "call"
+             and ev.data["fname"].endswith("._generate_sensitive_hosts")]
+    if len(calls) != 1:
+        chk.undecided("C15.construct", "generate passes the requested sensitive values to "
+                      "_generate_sensitive_hosts", f"{len(calls)} call(s)", fi.module.path)
+    else:
+        callee = ctx.repo.func(GEN_MOD, "ScenarioGenerator._generate_sensitive_hosts")
+        args = [cn.show(a) for a in calls[0].data["args"]][1:]
+        kws = {k: cn.show(v) for k, v in calls[0].data.get("kwargs", ())}
+        bound = dict(zip(callee.params[1:], args))
+        bound.update(kws)
+        okb = all(bound.get(p_) == p_ for p_ in callee.params[1:4])
+        chk.ob("C15.construct", "generate passes r_sensitive, r_user, random_goal to the parameters "
+               "of the same names", okb, str(bound), fi.module.path)
 
 
 # ------------------------------------------------------------------------------ core topology
